@@ -652,3 +652,123 @@ Proof.
 Qed.
 Print Assumptions scan_no_bad_slice.
 
+
+(* ------------------------------------------------------------------ *)
+(* numbers: the character-level `number` is NumLex.lex_number           *)
+(* ------------------------------------------------------------------ *)
+Lemma ascii_next_char : forall b r, (bN b < 128)%N -> next_char (b :: r) = Some (bN b, r).
+Proof.
+  intros b r H. unfold next_char, char_width. apply N.ltb_lt in H. rewrite H. reflexivity.
+Qed.
+
+Lemma ascii_valid_tail : forall b r, (bN b < 128)%N -> valid_utf8 (b :: r) = true -> valid_utf8 r = true.
+Proof.
+  intros b r H V. unfold valid_utf8 in *. rewrite (decode_step _ _ _ (ascii_next_char b r H)) in V.
+  destruct (decode r); [reflexivity|discriminate].
+Qed.
+
+Lemma chars_of_cons_head_ok : forall b r, head_ok r = true -> chars_of (b :: r) = [b] :: chars_of r.
+Proof.
+  intros b r H. rewrite chars_of_cons. destruct r as [|x r']; [reflexivity|].
+  destruct (chars_of_head x r') as [t [cs E]]. rewrite E. cbn in H. cbn.
+  destruct (is_cont x); [discriminate|reflexivity].
+Qed.
+
+Lemma chars_of_ascii_cons : forall b r, (bN b < 128)%N -> valid_utf8 (b :: r) = true ->
+  chars_of (b :: r) = [b] :: chars_of r /\ valid_utf8 r = true.
+Proof.
+  intros b r H V. pose proof (ascii_valid_tail b r H V) as V'. split; [|exact V'].
+  apply chars_of_cons_head_ok. apply valid_head_ok. exact V'.
+Qed.
+
+Lemma is_digit_ascii : forall b, is_digit b = true -> (bN b < 128)%N.
+Proof.
+  intros b H. unfold is_digit in H. apply andb_prop in H. destruct H as [_ H].
+  apply N.leb_le in H. unfold bN. lia.
+Qed.
+
+Lemma span_digit_chrs_chars_of : forall r, valid_utf8 r = true ->
+  span_digit_chrs (chars_of r) = (fst (span_digits r), chars_of (snd (span_digits r))).
+Proof.
+  induction r as [|b r IH]; intros V; [reflexivity|].
+  cbn [span_digits]. destruct (is_digit b) eqn:D.
+  - destruct (chars_of_ascii_cons b r (is_digit_ascii b D) V) as [E V']. rewrite E.
+    cbn [span_digit_chrs]. rewrite D, (IH V'). destruct (span_digits r). reflexivity.
+  - cbn [fst snd]. destruct (chars_of_head b r) as [t [cs E]]. rewrite E.
+    destruct t; cbn [span_digit_chrs]; [rewrite D|]; reflexivity.
+Qed.
+
+Lemma dot_ascii : (bN "."%byte < 128)%N. Proof. reflexivity. Qed.
+
+Lemma number_tail_lex : forall c r0, is_digit c = true -> valid_utf8 (c :: r0) = true ->
+  number_tail (chars_of r0) =
+  (tl (fst (lex_number (c :: r0))), chars_of (snd (lex_number (c :: r0)))).
+Proof.
+  intros c r0 D V. destruct (chars_of_ascii_cons c r0 (is_digit_ascii c D) V) as [_ V0].
+  unfold number_tail, lex_number. rewrite (span_digit_chrs_chars_of r0 V0).
+  destruct (span_digits r0) as [ip r1] eqn:E1. cbn [fst snd].
+  assert (V1 : valid_utf8 r1 = true).
+  { clear -E1 V0. revert ip r1 E1 V0. induction r0 as [|b r IH]; intros ip r1 E V; cbn [span_digits] in E.
+    - inversion E; subst. exact V.
+    - destruct (is_digit b) eqn:D.
+      + destruct (span_digits r) as [d' r'] eqn:E'. inversion E; subst.
+        apply (IH d' r1 eq_refl). apply (ascii_valid_tail b r (is_digit_ascii b D) V).
+      + inversion E; subst. exact V. }
+  destruct r1 as [|x r1']; [reflexivity|].
+  destruct (Byte.eqb x ".") eqn:Ex.
+  - apply Byte.byte_dec_bl in Ex. subst x.
+    destruct (chars_of_ascii_cons _ r1' dot_ascii V1) as [Ed V2]. rewrite Ed.
+    destruct r1' as [|d r2]; [reflexivity|].
+    destruct (is_digit d) eqn:Dd.
+    + destruct (chars_of_ascii_cons d r2 (is_digit_ascii d Dd) V2) as [Ed2 V3]. rewrite Ed2.
+      cbn [chr_is is_digit_chr]. rewrite Dd. cbn [Byte.eqb andb].
+      rewrite <- Ed2. rewrite (span_digit_chrs_chars_of (d :: r2) V2).
+      destruct (span_digits (d :: r2)) as [fp r3]. reflexivity.
+    + destruct (chars_of_head d r2) as [t [cs E]]. rewrite E.
+      assert (Q : is_digit_chr (d :: t) = false) by (destruct t; cbn; [exact Dd|reflexivity]).
+      rewrite Q, andb_false_r. rewrite <- E, <- Ed. reflexivity.
+  - destruct (chars_of_head x r1') as [t [cs E]]. rewrite E.
+    assert (Q : chr_is (x :: t) "." = false) by (destruct t; cbn; [exact Ex|reflexivity]).
+    assert (R : (let '(ip0, r2) := (ip, x :: r1') in
+                 match r2 with
+                 | "."%byte :: d :: r3 =>
+                   if is_digit d then let '(fp, r4) := span_digits (d :: r3) in (c :: ip0 ++ "."%byte :: fp, r4)
+                   else (c :: ip0, r2)
+                 | _ => (c :: ip0, r2)
+                 end) = (c :: ip, x :: r1')).
+    { cbv beta iota zeta. destruct x; try reflexivity. discriminate Ex. }
+    rewrite R. cbn [fst snd tl]. rewrite <- E.
+    destruct cs as [|n cs']; [rewrite E; reflexivity|]. rewrite Q. cbn [andb]. rewrite E. reflexivity.
+Qed.
+
+(* scan_token on input that starts with a digit returns exactly NumLex.lex_number's lexeme and
+   continues with the rest *)
+Theorem scan_number_is_lex_number : forall l pos line parens,
+  valid_utf8 l = true -> starts_number l = true ->
+  scan_token (mkS (chars_of l) pos line parens) =
+  (mkToken TNumber line (fst (lex_number l)),
+   mkS (chars_of (snd (lex_number l))) (pos + length (fst (lex_number l))) line parens).
+Proof.
+  intros l pos line parens V S. destruct l as [|c r0]; [discriminate|]. cbn in S.
+  destruct (chars_of_ascii_cons c r0 (is_digit_ascii c S) V) as [E V0].
+  pose proof (number_tail_lex c r0 S V) as NT.
+  assert (HL : fst (lex_number (c :: r0)) = c :: tl (fst (lex_number (c :: r0)))).
+  { unfold lex_number. destruct (span_digits r0) as [ip r1].
+    destruct r1 as [|x [|d r2]]; try reflexivity.
+    destruct x; try reflexivity. destruct (is_digit d); [|reflexivity].
+    destruct (span_digits (d :: r2)); reflexivity. }
+  rewrite E. unfold scan_token, scan_token_start. cbn [s_rest s_pos s_line s_parens].
+  assert (WS : skip_ws false ([c] :: chars_of r0) pos line = ([c] :: chars_of r0, pos, line)).
+  { cbn [skip_ws chr_is]. unfold is_digit in S.
+    destruct c; try discriminate S; reflexivity. }
+  rewrite WS. cbv zeta.
+  assert (A : is_alpha [c] = false) by (unfold is_digit in S; destruct c; try discriminate S; reflexivity).
+  rewrite A. cbn [is_digit_chr]. rewrite S, NT. rewrite HL at 1.
+  f_equal. f_equal. rewrite HL at 2. cbn [length]. lia.
+Qed.
+Print Assumptions scan_number_is_lex_number.
+
+Example scan_number_ex :
+  scan_token (init_sstate (bs "12.50.x")) =
+  (mkToken TNumber 1 (bs "12.50"), mkS [["."%byte]; ["x"%byte]] 5 1 []).
+Proof. reflexivity. Qed.
